@@ -66,8 +66,25 @@ def documented(alg, what, side):
     return side == "R"          # vtb: identity, negative identity, inverse, inversion matrix
 
 
+POSITIONAL_MISMATCH = []
+
+
 def call(fn, *a, **kw):
-    """-> (status, value, deprecation_flag); status ok / not-implemented / not-square / index-error / other:<cls>"""
+    """-> (status, value, deprecation_flag); status ok / not-implemented / not-square / index-error / other:<cls>.
+    A call that names `sidedness=` is repeated with the side passed positionally: how an argument is passed must
+    not change the answer (recorded in POSITIONAL_MISMATCH, reported by run())."""
+    r = call1(fn, *a, **kw)
+    if set(kw) == {"sidedness"} and len(a) == 1:
+        r2 = call1(fn, a[0], kw["sidedness"])
+        same = (r[0], r[2]) == (r2[0], r2[2]) and (r[1] is None) == (r2[1] is None) and \
+            (r[1] is None or np.array_equal(np.asarray(r[1]), np.asarray(r2[1])))
+        if not same and len(POSITIONAL_MISMATCH) < 20:
+            POSITIONAL_MISMATCH.append({"method": getattr(fn, "__qualname__", str(fn)), "side": kw["sidedness"].name,
+                                        "arg": repr(a[0])[:60], "keyword": [r[0], r[2]], "positional": [r2[0], r2[2]]})
+    return r
+
+
+def call1(fn, *a, **kw):
     with warnings.catch_warnings(record=True) as rec:
         warnings.simplefilter("always")
         try:
@@ -524,6 +541,11 @@ def run(ctx):
             run_inverse(ctx, alg, A, d, nd)
             run_wrappers(ctx, alg, A, d)
     run_malformed(ctx, nd)
+    ctx.count("positional-sidedness", branch="positional-sidedness")
+    for mm in POSITIONAL_MISMATCH:
+        ctx.fail(dict(mm, op="positional-sidedness"), f"keyword {mm['keyword']} vs positional {mm['positional']}",
+                 "the same answer however `sidedness` is passed", where="sidedness-positional")
+    del POSITIONAL_MISMATCH[:]
     import time as _t
     t0 = _t.time()
     if not nd:
